@@ -37,7 +37,7 @@ package hexary
 //@   arith bv
 //@   pure
 //@   requires nodeOK(b) && 0 <= i && i < 16
-//@   ensures [copy] i < len(b.bytes) / 32 ==> fresh(h) && len(h) == 32 && (forall j int :: {h[j]} 0 <= j && j < 32 ==> h[j] == b.bytes[32 * i + j])
+//@   ensures [copy] i < len(b.bytes) / 32 ==> fresh(h) && allocated(h) && len(h) == 32 && (forall j int :: {h[j]} 0 <= j && j < 32 ==> h[j] == b.bytes[32 * i + j])
 //@ func (b *node) Bytes() (r)
 //@   arith bv
 //@   pure
@@ -50,6 +50,19 @@ package hexary
 //@   ensures [empty] len(b.bytes) == 0 ==> h == nil
 //@   ensures [hash] len(b.bytes) > 0 ==> h != nil && len(h) == 32 && seq(h) == sha3(seq(b.bytes)) && h == b._hash
 //@   ensures [inv] nodeOK(b)
+//@   ensures [origin] len(b.bytes) > 0 ==> (old(b._hash) != nil ==> h == old(b._hash)) && (old(b._hash) == nil ==> fresh(h)) && allocated(h)
+// Add appends one child (in place or into a new array), RemoveBack drops the last one in place; both
+// forget the cached hash
+//@ func (b *node) Add(hash) (full)
+//@   arith bv
+//@   requires b != nil && len(hash) == 32 && len(b.bytes) <= 480 && len(b.bytes) % 32 == 0 && allocated(b.bytes)
+//@   modifies b.bytes, b._hash, b.bytes[*], allelems(uint8)
+//@   ensures [appended] len(b.bytes) == old(len(b.bytes)) + 32 && b._hash == nil && (ref(b.bytes) == old(ref(b.bytes)) || fresh(b.bytes)) && allocated(b.bytes)
+//@ func (b *node) RemoveBack()
+//@   arith bv
+//@   requires b != nil && len(b.bytes) >= 32
+//@   modifies b.bytes, b._hash
+//@   ensures [dropped] len(b.bytes) == old(len(b.bytes)) - 32 && ref(b.bytes) == old(ref(b.bytes)) && off(b.bytes) == old(off(b.bytes)) && b._hash == nil
 //@ func newNodeFromBytes(bytes) (n, err)
 //@   arith bv
 //@   pure
